@@ -1,8 +1,10 @@
 """Gen/C06Consts.lean — pair-verify constants read from the imported pyatv modules.
 
 Module-level data (TLV tags, per-transport HKDF salt/info strings) is read directly; the
-string literals used inside SRPAuthHandler.verify1 are read from its code object.  A
-literal that can no longer be found is emitted as the empty byte string: the model then
+string literals used by SRPAuthHandler.verify1 are read from its code object, from the module
+constants it names and from the helpers of the same class/module it calls (three levels), so
+hoisting a literal to a constant or extracting a helper does not lose it.  A literal that can no
+longer be found is emitted as the empty byte string: the model then
 disagrees with the code in the correspondence run (the generator itself never raises on
 a refactored tree).
 """
@@ -13,21 +15,78 @@ def _bytes_lit(data: bytes) -> str:
     return "[" + ", ".join("0x%02x" % b for b in data) + "]"
 
 
-def _code_strings(func):
-    out = []
+def _reachable_literals(func, owner=None, module=None, depth=3, seen=None):
+    """String/bytes literals a function can use, as bytes, in discovery order: its own constants
+    (nested code objects included), module-level constants it names, and — followed up to `depth`
+    levels — the helpers it calls that live in the same class (`self._helper`) or module.  So a
+    literal that is hoisted to a module constant or moves into an extracted helper is still found."""
+    import types
+
+    seen = set() if seen is None else seen
+    func = getattr(func, "__func__", func)
     code = getattr(func, "__code__", None)
-    if code is not None:
-        for c in code.co_consts:
-            if isinstance(c, str):
-                out.append(c)
+    if code is None or code in seen:
+        return []
+    seen.add(code)
+    if module is None:
+        import sys
+
+        module = sys.modules.get(getattr(func, "__module__", ""), None)
+    out = []
+
+    def lit(value):
+        if isinstance(value, str):
+            out.append(value.encode())
+        elif isinstance(value, bytes):
+            out.append(value)
+        elif isinstance(value, (tuple, frozenset)):
+            for x in value:
+                lit(x)
+
+    def walk(c):
+        names = list(c.co_names)
+        for const in c.co_consts:
+            if isinstance(const, types.CodeType):
+                names += walk(const)
+            else:
+                lit(const)
+        return names
+
+    for name in walk(code):
+        candidates = []
+        if module is not None and name in getattr(module, "__dict__", {}):
+            candidates.append(module.__dict__[name])
+        if owner is not None and hasattr(owner, name):
+            candidates.append(getattr(owner, name))
+        for value in candidates:
+            if isinstance(value, (str, bytes)):
+                lit(value)
+            elif depth > 0 and isinstance(getattr(value, "__func__", value), types.FunctionType):
+                target = getattr(value, "__func__", value)
+                if module is None or getattr(target, "__module__", None) == getattr(module, "__name__", None):
+                    out.extend(_reachable_literals(target, owner, module, depth - 1, seen))
     return out
 
 
-def _first(strings, pattern):
-    for s in strings:
-        if re.fullmatch(pattern, s):
-            return s
+def _first(literals, pattern):
+    for s in literals:
+        try:
+            if re.fullmatch(pattern, s.decode()):
+                return s.decode()
+        except UnicodeDecodeError:
+            continue
     return ""
+
+
+def _named(module, name, func, owner, pattern):
+    """A module-level constant by name; if it was renamed/moved, the literal reachable from the code
+    that uses it and matching `pattern` (empty string if that fails too: the correspondence reports it)."""
+    value = getattr(module, name, None)
+    if isinstance(value, str):
+        return value
+    if isinstance(value, bytes):
+        return value.decode("latin-1")
+    return _first(_reachable_literals(func, owner, module), pattern) if func is not None else ""
 
 
 def generate():
@@ -37,21 +96,27 @@ def generate():
     from pyatv.protocols.companion import protocol as companion_protocol
     from pyatv.protocols.mrp import protocol as mrp_protocol
 
-    strings = _code_strings(hap_srp.SRPAuthHandler.verify1)
+    srp_cls = getattr(hap_srp, "SRPAuthHandler", None)
+    strings = _reachable_literals(getattr(srp_cls, "verify1", None), srp_cls, hap_srp)
+    mrp_cls = getattr(mrp_protocol, "MrpProtocol", None)
+    comp_cls = getattr(companion_protocol, "CompanionProtocol", None)
+    mrp_f = getattr(mrp_cls, "_enable_encryption", None) or getattr(mrp_cls, "start", None)
+    comp_f = getattr(comp_cls, "_setup_encryption", None) or getattr(comp_cls, "start", None)
+    air_f = getattr(airplay_auth, "verify_connection", None)
     items = [
         ("pvSalt", "literal in SRPAuthHandler.verify1", _first(strings, r"Pair-Verify-Encrypt-Salt")),
         ("pvInfo", "literal in SRPAuthHandler.verify1", _first(strings, r"Pair-Verify-Encrypt-Info")),
         ("msg02", "nonce literal in SRPAuthHandler.verify1", _first(strings, r"PV-Msg02")),
         ("msg03", "nonce literal in SRPAuthHandler.verify1", _first(strings, r"PV-Msg03")),
-        ("mrpSalt", "pyatv.protocols.mrp.protocol.SRP_SALT", mrp_protocol.SRP_SALT),
-        ("mrpOutInfo", "pyatv.protocols.mrp.protocol.SRP_OUTPUT_INFO", mrp_protocol.SRP_OUTPUT_INFO),
-        ("mrpInInfo", "pyatv.protocols.mrp.protocol.SRP_INPUT_INFO", mrp_protocol.SRP_INPUT_INFO),
-        ("companionSalt", "pyatv.protocols.companion.protocol.SRP_SALT", companion_protocol.SRP_SALT),
-        ("companionOutInfo", "pyatv.protocols.companion.protocol.SRP_OUTPUT_INFO", companion_protocol.SRP_OUTPUT_INFO),
-        ("companionInInfo", "pyatv.protocols.companion.protocol.SRP_INPUT_INFO", companion_protocol.SRP_INPUT_INFO),
-        ("airplaySalt", "pyatv.protocols.airplay.auth.CONTROL_SALT", airplay_auth.CONTROL_SALT),
-        ("airplayOutInfo", "pyatv.protocols.airplay.auth.CONTROL_OUTPUT_INFO", airplay_auth.CONTROL_OUTPUT_INFO),
-        ("airplayInInfo", "pyatv.protocols.airplay.auth.CONTROL_INPUT_INFO", airplay_auth.CONTROL_INPUT_INFO),
+        ("mrpSalt", "pyatv.protocols.mrp.protocol.SRP_SALT", _named(mrp_protocol, "SRP_SALT", mrp_f, mrp_cls, r"MediaRemote-Salt")),
+        ("mrpOutInfo", "pyatv.protocols.mrp.protocol.SRP_OUTPUT_INFO", _named(mrp_protocol, "SRP_OUTPUT_INFO", mrp_f, mrp_cls, r"MediaRemote-Write-.*")),
+        ("mrpInInfo", "pyatv.protocols.mrp.protocol.SRP_INPUT_INFO", _named(mrp_protocol, "SRP_INPUT_INFO", mrp_f, mrp_cls, r"MediaRemote-Read-.*")),
+        ("companionSalt", "pyatv.protocols.companion.protocol.SRP_SALT", _named(companion_protocol, "SRP_SALT", None, None, r"")),
+        ("companionOutInfo", "pyatv.protocols.companion.protocol.SRP_OUTPUT_INFO", _named(companion_protocol, "SRP_OUTPUT_INFO", comp_f, comp_cls, r"ClientEncrypt-.*")),
+        ("companionInInfo", "pyatv.protocols.companion.protocol.SRP_INPUT_INFO", _named(companion_protocol, "SRP_INPUT_INFO", comp_f, comp_cls, r"ServerEncrypt-.*")),
+        ("airplaySalt", "pyatv.protocols.airplay.auth.CONTROL_SALT", _named(airplay_auth, "CONTROL_SALT", air_f, None, r"Control-Salt")),
+        ("airplayOutInfo", "pyatv.protocols.airplay.auth.CONTROL_OUTPUT_INFO", _named(airplay_auth, "CONTROL_OUTPUT_INFO", air_f, None, r"Control-Write-.*")),
+        ("airplayInInfo", "pyatv.protocols.airplay.auth.CONTROL_INPUT_INFO", _named(airplay_auth, "CONTROL_INPUT_INFO", air_f, None, r"Control-Read-.*")),
     ]
     tags = [
         ("tagIdentifier", TlvValue.Identifier),
